@@ -268,7 +268,7 @@ func c19r1(c *RC) {
 				return encode(held), false
 			}})
 	}
-	c.Floor("guarded accesses and lock-required calls examined", naccess, 120)
+	c.Floor("guarded accesses and lock-required calls examined", naccess, 60)
 }
 
 func c19r2(c *RC) {
